@@ -55,6 +55,12 @@ func genC18(seed uint64, r *rng.Rand) *Plan {
 			if g.R.Chance(0.3) {
 				o.MS = -1 // fire and forget
 			}
+			if g.R.Chance(0.06) {
+				// a call that cannot be marshalled (nil row), sent on its own: it fails
+				// before anything is written and must leave the count of outstanding
+				// requests alone
+				o = Op{Kind: "get", Table: "t", Key: nil, Nonce: g.Nonce(), SkipBatch: true}
+			}
 			ops = append(ops, o)
 		}
 		p.Tasks = append(p.Tasks, Task{Ops: ops})
